@@ -234,7 +234,7 @@ def run(chk):
     cat = catalogue()
     names = list(cat)
     rng = random.Random(chk.seed + 301)
-    probes = ["unstack", "index-step", "roll", "take", "fused-diamond", "widen-sum-skinny", "widen-mean-skinny"]
+    probes = ["unstack", "index-step", "roll", "take", "argmax", "fused-diamond", "widen-sum-skinny", "widen-mean-skinny"]
     if chk.tier == "quick":
         always = ["multiout-big-small", "multiout-small-big"]
         regular = [n for n in names if n not in probes and n not in always]
